@@ -241,6 +241,66 @@ def design_expectation(onsets, trial_types, tr, n_vols, confound_columns):
             'first_response': sorted(first, key=lambda v: (v is None, v))}
 
 
+_BOXED = {}
+
+
+def _boxed(table, n_box):
+    """the response table convolved with a box of n_box samples (kept per table and box)"""
+    key = (table, n_box)
+    if key not in _BOXED:
+        h = [0.0] * (len(table) + n_box - 1)
+        for i, v in enumerate(table):
+            for j in range(n_box):
+                h[i + j] += float(v)
+        _BOXED[key] = h
+    return _BOXED[key]
+
+
+def block_regressor(hrf_table, step, onsets, duration, tr, n_vols):
+    """the regressor of one condition, from the definition: the tabulated haemodynamic response
+    (sampled every `step` seconds) convolved with a box of the event duration, one copy per
+    onset, read off at the volume times k * tr (linear interpolation in the table, zero outside),
+    then centred and divided by its range.  None when it is constant."""
+    n_box = max(1, int(round(duration / step)))
+    h = _boxed(tuple(hrf_table), n_box)
+    y = []
+    for k in range(n_vols):
+        t = k * tr
+        acc = 0.0
+        for o in onsets:
+            x = (t - o) / step
+            if x < 0 or x > len(h) - 1:
+                continue
+            lo = int(x)
+            hi = min(lo + 1, len(h) - 1)
+            acc += h[lo] + (h[hi] - h[lo]) * (x - lo)
+        y.append(acc)
+    spread = max(y) - min(y)
+    if spread == 0:
+        return None
+    mean = sum(y) / len(y)
+    return [(v - mean) / spread for v in y]
+
+
+def correlation(a, b):
+    a = [float(v) for v in a]
+    b = [float(v) for v in b]
+    ma, mb = sum(a) / len(a), sum(b) / len(b)
+    sab = sum((x - ma) * (y - mb) for x, y in zip(a, b))
+    saa = sum((x - ma) ** 2 for x in a)
+    sbb = sum((y - mb) ** 2 for y in b)
+    if saa == 0 or sbb == 0:
+        return float('nan')
+    return sab / (saa * sbb) ** 0.5
+
+
+def first_volume_after(onset, tr, n_vols):
+    for v in range(n_vols):
+        if v * tr > onset + 1e-12:
+            return v
+    return None
+
+
 def departure_index(column, tol=1e-9):
     """index of the first entry that differs from entry 0 (None if constant)"""
     base = float(column[0])
